@@ -314,6 +314,10 @@ class BuiltinMixin:
                 if t is not False:
                     acc = t if acc is False else (acc | t)
             return acc
+        q = self._quantified_truth(args[0])
+        if q is not None:
+            i, rng, t = q
+            return SV(z3.Exists([i], z3.And(rng, t)), TBool)
         raise Unsupported("any() over symbolic")
 
     def bi_all(self, args, kwargs, node):
@@ -327,7 +331,18 @@ class BuiltinMixin:
                 if t is not True:
                     acc = t if acc is True else (acc & t)
             return acc
+        q = self._quantified_truth(args[0])
+        if q is not None:
+            i, rng, t = q
+            return SV(z3.ForAll([i], z3.Implies(rng, t)), TBool)
         raise Unsupported("all() over symbolic")
+
+    def _quantified_truth(self, v):
+        """(i, 0 <= i < len(v), truth(v[i])) for a symbolic list of booleans"""
+        if isinstance(v, SV) and isinstance(v.ty, TList) and v.ty.elem == TBool:
+            i = z3.Int(f"i!q{self.fresh_id()}")
+            return i, z3.And(i >= 0, i < v.length().t), v[SV(i, TInt)].t
+        return None
 
     def bi_getattr(self, args, kwargs, node):
         obj, name = args[0], args[1]
@@ -359,6 +374,18 @@ class BuiltinMixin:
 
     def bi_print(self, args, kwargs, node):
         return None
+
+    def bi_sum(self, args, kwargs, node):
+        """sum of a concrete sequence is computed; of a symbolic collection it is an unconstrained integer
+        (over-approximation: nothing under contract depends on the value)"""
+        (v,) = args
+        if isinstance(v, (tuple, list)):
+            acc = lift(0)
+            for x in v:
+                acc = acc + x
+            return acc
+        self.res.drops.add("sum() over a symbolic collection = unconstrained integer")
+        return TInt.fresh("sum")
 
     def bi_min(self, args, kwargs, node):
         a, b = args
@@ -439,6 +466,12 @@ class BuiltinMixin:
             return self.emptyset_method(selfv, name, args, node, self_expr)
         if isinstance(selfv, list):
             return self.list_method(selfv, name, args, node, self_expr)
+        if isinstance(selfv, str) and name == "format" and selfv.count("{}") == len(args) and not kwargs:
+            parts = selfv.split("{}")
+            acc = parts[0]
+            for a, p_ in zip(args, parts[1:]):
+                acc = self.binop("Add", self.binop("Add", acc, self.to_str(a), node), p_, node)
+            return acc
         if isinstance(selfv, (str, bytes, tuple)) and not any(isinstance(a, SV) for a in args) and not kwargs:
             if isinstance(selfv, str) and name == "join":
                 parts = self.iterable_view(args[0])
